@@ -60,6 +60,7 @@ type AbsfsNFS struct {
 	exportServer     *Server                 // Server created by Export(), nil if not exported
 	exportMu         sync.Mutex              // guards exportServer (Close/Unexport may be called concurrently)
 	exclusiveVerf    sync.Map                // path -> [8]byte verifier of the EXCLUSIVE CREATE that made the file
+	createMu         [64]sync.Mutex          // CREATE's existence check and creation are one step per name (striped by path hash)
 
 	// Options are stored as immutable snapshots behind atomic pointers.
 	// Readers load the pointer -- no lock needed.
